@@ -319,7 +319,7 @@ def alphabet(ab, nsel, thorough):
 
 
 WORK_QUICK, WORK_THOROUGH = 220000, 1400000     # per-listing work allowance (units: KB read), see plan_counts
-WALK_CHUNK = 1000                                  # triples (index=i; a; b) done on one object before a new one is opened
+WALK_CHUNK = 250                                   # triples (index=i; a; b) done on one object before a new one is opened
 UNIT_PER_MS = 35          # calibration of the work unit below: ~35 units per millisecond of one core
 
 
